@@ -786,3 +786,183 @@ func ruleCLN8(c *Ctx) {
 	}
 	c.Check(ok, "CloneTable.MarkCloned / records the clone under the origin's id", p.Pos(mark.Pos()), "Records[originAst] = &CloneRecord{CloneInstance: clone}", "MarkCloned records something else ("+why+"): every later reuse from the clone table hands out the wrong instance (e.g. the origin itself)")
 }
+
+func init() {
+	register("CLN-9", "node identifiers come from a source that is unique across processes, and every node gets a fresh one", 20, ruleCLN9)
+}
+
+// uniqueSourcePkgs: packages whose results are unique across processes and machines.
+var uniqueSourcePkgs = map[string]bool{"github.com/google/uuid": true, "crypto/rand": true}
+
+// derivesFromUniqueSource: every way the value can be produced passes through a call into a uniqueSourcePkgs package.
+func derivesFromUniqueSource(v ssa.Value, depth int, seen map[ssa.Value]bool) bool {
+	if v == nil || depth > 12 || seen[v] {
+		return false
+	}
+	seen[v] = true
+	defer delete(seen, v)
+	switch v := v.(type) {
+	case *ssa.Call:
+		if f := v.Call.StaticCallee(); f != nil && f.Pkg != nil && uniqueSourcePkgs[f.Pkg.Pkg.Path()] {
+			return true
+		}
+		if f := v.Call.StaticCallee(); f != nil && f.Signature.Recv() != nil {
+			if n, ok := derefType(f.Signature.Recv().Type()).(*types.Named); ok && n.Obj().Pkg() != nil && uniqueSourcePkgs[n.Obj().Pkg().Path()] {
+				return true
+			}
+		}
+		// a formatting / conversion call is as unique as one of its arguments
+		for _, a := range v.Call.Args {
+			if derivesFromUniqueSource(a, depth+1, seen) {
+				return true
+			}
+		}
+		// a module helper: all its returns
+		if f := v.Call.StaticCallee(); f != nil && f.Blocks != nil && f.Pkg != nil && strings.HasPrefix(f.Pkg.Pkg.Path(), modPath) {
+			rets := returnsOf(f)
+			if len(rets) == 0 {
+				return false
+			}
+			for _, r := range rets {
+				if len(r.Results) == 0 || !derivesFromUniqueSource(r.Results[0], depth+1, seen) {
+					return false
+				}
+			}
+			return true
+		}
+		return false
+	case *ssa.Phi:
+		for _, e := range v.Edges {
+			if !derivesFromUniqueSource(e, depth+1, seen) {
+				return false
+			}
+		}
+		return len(v.Edges) > 0
+	case *ssa.BinOp:
+		return derivesFromUniqueSource(v.X, depth+1, seen) || derivesFromUniqueSource(v.Y, depth+1, seen)
+	case *ssa.Extract:
+		return derivesFromUniqueSource(v.Tuple, depth+1, seen)
+	case *ssa.Convert:
+		return derivesFromUniqueSource(v.X, depth+1, seen)
+	case *ssa.ChangeType:
+		return derivesFromUniqueSource(v.X, depth+1, seen)
+	case *ssa.MakeInterface:
+		return derivesFromUniqueSource(v.X, depth+1, seen)
+	case *ssa.Slice:
+		return derivesFromUniqueSource(v.X, depth+1, seen)
+	case *ssa.UnOp:
+		if v.Op == token.MUL {
+			// load of a local filled by a unique source (e.g. var b [16]byte; rand.Read(b[:]))
+			if al, ok := v.X.(*ssa.Alloc); ok {
+				return allocFilledByUnique(al)
+			}
+		}
+		return false
+	case *ssa.Alloc:
+		return allocFilledByUnique(v)
+	}
+	return false
+}
+
+func allocFilledByUnique(al *ssa.Alloc) bool {
+	for _, r := range *al.Referrers() {
+		switch r := r.(type) {
+		case *ssa.Store:
+			if r.Addr == ssa.Value(al) && derivesFromUniqueSource(r.Val, 1, map[ssa.Value]bool{}) {
+				return true
+			}
+		case *ssa.Slice:
+			for _, rr := range *r.Referrers() {
+				if call, ok := rr.(*ssa.Call); ok {
+					if f := call.Call.StaticCallee(); f != nil && f.Pkg != nil && uniqueSourcePkgs[f.Pkg.Pkg.Path()] {
+						return true
+					}
+				}
+			}
+		}
+	}
+	return false
+}
+
+func derefType(t types.Type) types.Type {
+	if p, ok := t.(*types.Pointer); ok {
+		return p.Elem()
+	}
+	return t
+}
+
+func ruleCLN9(c *Ctx) {
+	p := c.P
+	newID := p.Func("ast/unique", "NewID")
+	if newID == nil {
+		c.AnchorLost("unique.NewID")
+		return
+	}
+	rets := returnsOf(newID)
+	ok := len(rets) > 0
+	for _, r := range rets {
+		if len(r.Results) != 1 || !derivesFromUniqueSource(r.Results[0], 0, map[ssa.Value]bool{}) {
+			ok = false
+		}
+	}
+	c.Check(ok, "unique.NewID / unique across processes", p.Pos(newID.Pos()), "every returned identifier derives from github.com/google/uuid or crypto/rand",
+		"an identifier that is unique only inside this process (counter, clock, text): identifiers are persisted in stored knowledge bases and mixed with fresh ones when rules are added after loading, so nodes collide in the clone table and NewKnowledgeBaseInstance fails or cross-links nodes")
+	// every node allocation in package ast takes its identifier from a fresh NewID call (or, when rebuilding, from the stored record)
+	isNewIDCall := func(v ssa.Value) bool {
+		call, ok := v.(*ssa.Call)
+		return ok && call.Call.StaticCallee() == newID
+	}
+	build := p.Method("ast", "Catalog", "BuildKnowledgeBase")
+	for _, fn := range p.ModuleFuncs() {
+		if fn.Pkg == nil || fn.Pkg.Pkg.Path() != fullPkg("ast") || strings.HasSuffix(p.Pos(fn.Pos()), "_test.go") {
+			continue
+		}
+		for _, b := range fn.Blocks {
+			for _, in := range b.Instrs {
+				al, ok := in.(*ssa.Alloc)
+				if !ok || !al.Heap {
+					continue
+				}
+				pt, ok := al.Type().(*types.Pointer)
+				if !ok {
+					continue
+				}
+				if _, isPtr := pt.Elem().(*types.Pointer); isPtr {
+					continue // a spilled pointer variable, not a node
+				}
+				name, isNode := nodeTypeOf(pt.Elem())
+				if !isNode {
+					continue
+				}
+				var idField *types.Var
+				var vals []ssa.Value
+				for f, vs := range cloneFieldStores(fn, al) {
+					if f.Name() == "AstID" {
+						idField, vals = f, vs
+					}
+				}
+				key := fmt.Sprintf("%s / new %s gets a fresh identifier", fnName(fn), name)
+				if idField == nil || len(vals) == 0 {
+					c.Fail(key, p.InstrPos(al), "the node is created without an AstID: all such nodes collide under the empty key in the clone table and in a stored catalogue")
+					continue
+				}
+				good := true
+				for _, v := range vals {
+					if isNewIDCall(v) {
+						continue
+					}
+					if fn == build {
+						if lf, base := fieldLoad(v); lf != nil && lf.Name() == "AstID" && isMetaOf(base) {
+							continue
+						}
+						if call, ok := v.(*ssa.Call); ok && call.Call.IsInvoke() && call.Call.Method.Name() == "GetAstID" && isNamed(call.Call.Value.Type(), fullPkg("ast"), "Meta") {
+							continue
+						}
+					}
+					good = false
+				}
+				c.Check(good, key, p.InstrPos(al), "AstID <- unique.NewID() (or the stored record's AstID when rebuilding)", "AstID does not come from a fresh unique.NewID() call: two nodes can carry the same identifier, and the clone table (keyed by AstID) hands one node's clone to the other's parents")
+			}
+		}
+	}
+}
